@@ -84,6 +84,22 @@ def gen_cases(tier):
         cases.append({"kind": "negative", "args": [neg, "1", "5"], "input": f"linspace({neg}, 1, 5)"})
         cases.append({"kind": "negative", "args": [neg, "3"], "input": f"range({neg}, 3)"})
         cases.append({"kind": "negative", "args": [neg, "1", "0.25"], "input": f"arange({neg}, 1, 0.25)"})
+    # --- longer lists over the tenths (non-equidistant grids whose mean spacing equals the first spacing live here)
+    tenths_ = [str(F(i, 10)) if i % 10 else "1" for i in range(1, 11)]
+    tenths_ = [str(float(F(x))) if "/" in x else x for x in tenths_]
+    for k in (4, 5):
+        for combo in itertools.combinations(tenths_, k):
+            cases.append({"kind": "list", "args": list(combo), "input": "[" + ", ".join(combo) + "]"})
+            cases.append({"kind": "list", "args": list(combo[::-1]), "input": "(" + ",".join(combo[::-1]) + ")"})
+    # --- descending linspace and negative-step range: same distances, ascending order; a negative end point: rejected
+    for a, b in (("0.5", "0.1"), ("1.5", "0.2"), ("2", "0.5")):
+        for n in (2, 3, 5):
+            cases.append({"kind": "linspace", "args": [a, b, str(n)], "input": f"linspace({a}, {b}, {n})"})
+    for a, b, st in (("3", "1", "-0.5"), ("2", "0.5", "-0.5"), ("1.3", "1", "-0.1"), ("0.9", "0", "-0.3"), ("4", "1", "-1")):
+        cases.append({"kind": "range", "args": [a, b, st], "input": f"range({a}, {b}, {st})"})
+        cases.append({"kind": "range", "args": [a, b, st], "input": f"arange({a},{b},{st})"})
+    for inp in ("linspace(1, -1, 3)", "linspace(0.5, -0.1, 4)", "range(1, -1, -0.5)", "linspace(-0.2, -0.1, 2)", "[0.1, -0.0001]"):
+        cases.append({"kind": "negative", "args": [inp], "input": inp})
     # --- linspace
     lm = ["0.1", "0.2", "0.5", "1.5"]
     for a, b in itertools.combinations(lm, 2):
@@ -122,7 +138,10 @@ def gen_cases(tier):
 
 def intended(case):
     """mathematically intended distances in nm (Fractions), unsorted semantics resolved; None => must be rejected."""
-    k, a = case["kind"], [fr(x) for x in case["args"]]
+    k = case["kind"]
+    if k == "negative":
+        return None
+    a = [fr(x) for x in case["args"]]
     if k == "list":
         return sorted(a)
     if k == "negative":
@@ -131,7 +150,7 @@ def intended(case):
         n = int(a[2]) if len(a) == 3 else 50
         if n == 1:
             return [a[0]]
-        return [a[0] + (a[1] - a[0]) * F(i, n - 1) for i in range(n)]
+        return sorted(a[0] + (a[1] - a[0]) * F(i, n - 1) for i in range(n))
     if k == "range":
         if len(a) == 1:
             start, stop, step = F(0), a[0], F(1)
@@ -141,16 +160,16 @@ def intended(case):
             start, stop, step = a
         out = []
         x = start
-        while x < stop:
+        while (x < stop) if step > 0 else (x > stop):
             out.append(x)
             x += step
-        return out
+        return sorted(out)
     raise ValueError(k)
 
 
 def run_case(case):
     vs = []
-    canon_args = ",".join(case["args"])
+    canon_args = ",".join(case["args"]).replace(" ", "")
     pre = f"C16|kind={case['kind']}|args=({canon_args})"
     want = intended(case)
     try:
